@@ -173,7 +173,7 @@ def do_active(req):
                 prog = build_program([lambda: pq.Q(all) | pq.Vacuum()], c["gates"])
                 # the Gaussian state is exact whatever the cutoff, which only selects the
                 # listed basis states: list just the compared sectors there
-                cut = min(nmax + 1, cutoff) if name == "gaussian" else cutoff
+                cut = min(nmax + 1, cutoff) if name == "gaussian" else c.get("cutoffs", {}).get(name, cutoff)
                 sim = table[name](d=d, config=pq.Config(cutoff=cut, hbar=hbar))
                 st = sim.execute(prog).state
                 r = {}
